@@ -128,6 +128,16 @@ def cases():
     out.append(Case('file created two levels below an empty directory and deleted by a later patch', dict(F, d=(b'', 'dir')), {'p0.patch': create(b'd/e/n', [b'n1', b'n2']), 'p1.patch': delete(b'd/e/n', [b'n1', b'n2']), 'p2.patch': mod(b'f', b'f', 1, b'F1')},
                     ['p0.patch', 'p1.patch', 'p2.patch'], ['file-created-and-deleted-in-a-directory-that-was-empty', 'new-directory-in-between'], first_fail=None, props=('C09', 'C06')))
 
+    # ---- a patch whose name is not valid UTF-8 (the series file is bytes)
+    latin = os.fsdecode(b'caf\xe9.patch')
+    out.append(Case('patch with a Latin-1 name', F, {latin: mod(b'f', b'f', 1, b'F1'), 'y.patch': mod(b'g', b'g', 2, b'G2'), 'z.patch': mod(b'f', b'f', 4, b'F4')}, [latin, 'y.patch', 'z.patch'],
+                    ['patch-name-that-is-not-utf8'], first_fail=None, props=('C09',)))
+    # ---- an entry without hunks for a file that is not there is a no-op: it leaves the empty directories alone
+    fe = dict(F, **{'empty/dir': (b'', 'dir')})
+    out.append(Case('mode change for a file that does not exist, below empty directories', fe, {'p0.patch': b'diff --git a/empty/dir/ghost b/empty/dir/ghost\nold mode 100644\nnew mode 100755\n', 'p1.patch': mod(b'g', b'g', 2, b'G2')},
+                    ['p0.patch', 'p1.patch'], ['hunkless-entry-for-a-missing-file'], first_fail=None, props=('C05', 'C09'),
+                    expect={'exit': '0', 'applied': ['p0.patch', 'p1.patch'], 'tree': dict(F, g=(_apply(b'g', 2, b'G2'), 0o755)), 'rejects': [], 'dirs': ['empty/', 'empty/dir/']}))
+
     # ---- known limitation (KF-03): a name that is a file for one patch and a directory for another, within one push
     out.append(Case('file a deleted, then a/b created', dict(F, a=(b'x\ny\n', 0o644)), {'p0.patch': delete(b'a', [b'x', b'y']), 'p1.patch': create(b'a/b', [b'n1', b'n2'])}, ['p0.patch', 'p1.patch'],
                     ['name-is-file-and-directory-within-one-push'], first_fail=None, props=('C09',)))
@@ -173,6 +183,8 @@ def expect_case(task):
     if tree != want:
         d = sorted(p for p in set(tree) | set(want) if tree.get(p) != want.get(p))
         out['violations'].append((cl, 'tree', wit({'expected': 'see case', 'observed': 'differs at %r' % d, 'detail': {p: [repr(tree.get(p)), repr(want.get(p))] for p in d[:3]}})))
+    if 'dirs' in e and sorted(ws.dirs_of(snap)) != sorted(e['dirs']):
+        out['violations'].append((cl, 'directories', wit({'expected': sorted(e['dirs']), 'observed': sorted(ws.dirs_of(snap))})))
     rej = sorted(ws.rejects_of(snap))
     if rej != sorted(e['rejects']):
         out['violations'].append((cl, 'reject-set', wit({'expected': sorted(e['rejects']), 'observed': rej, 'stderr': common.b2s(o.err[-400:])})))
